@@ -204,6 +204,38 @@ func (e *Exec) seqReturned(st *State, fr *Frame) ([]*State, bool) {
 }
 
 func (e *Exec) dispatch(st *State, fr *Frame, ci *callInfo, retTo ssa.Value, mode int) ([]*State, bool) {
+	if ci.key == "(*sync.Once).Do" && len(ci.args) == 2 && ci.args[1].Fn != nil {
+		// sync.Once: the function runs on the first call only
+		e.modelled["(*sync.Once).Do"] = true
+		o := ci.args[0].L[0]
+		if ci.args[0].P != nil {
+			o = App(SInt, "fptr", ci.args[0].P.Base, IntLit(int64(e.pathID(placeKeyOnly(ci.args[0].P)))))
+			e.declareFun("fptr", []Sort{SInt, SInt}, SInt)
+		}
+		done := e.define(st, "once.done", e.loadGhost(st, "onceDone", SBool, o))
+		var out []*State
+		s1 := st.clone()
+		s1.pathID = e.newPathID()
+		s1.assert(done)
+		s1.pcs = append(s1.pcs, e.eng.posString(ci.pos)+": sync.Once already done")
+		if ss, cont := e.afterCall(s1, s1.top(), retTo, Value{}, mode); cont {
+			out = append(out, s1)
+		} else {
+			out = append(out, ss...)
+		}
+		st.assert(Not(done))
+		st.pcs = append(st.pcs, e.eng.posString(ci.pos)+": sync.Once first call")
+		e.storeGhost(st, "onceDone", SBool, o, True)
+		f := ci.args[1].Fn
+		ci2 := &callInfo{fn: f.Fn, key: calleeKey(f.Fn), bind: f.Bind, sig: f.Fn.Signature, pos: ci.pos, what: ci.what}
+		ss, cont := e.dispatch(st, fr, ci2, retTo, mode)
+		if cont {
+			out = append(out, st)
+		} else {
+			out = append(out, ss...)
+		}
+		return out, false
+	}
 	if ci.key == "server.PerformConcurrently" && fr.seq == nil {
 		if succ, cont, ok := e.performConcurrently(st, fr, ci, retTo, mode); ok {
 			return succ, cont
@@ -813,6 +845,9 @@ func (e *Exec) assignTarget(env *SpecEnv, a *SExpr) (out []assignTarget, err err
 		if a.Args[0].Op == "id" {
 			if _, isVar := env.vars[a.Args[0].Name]; !isVar {
 				t := env.specType(a.Args[0].Name)
+				if g, ok := e.eng.specs.Ghosts[a.Name]; ok && g.IsField && g.Owner == typeKey(t) {
+					return []assignTarget{{key: typeKey(t) + "$" + a.Name, sort: sortOfSpecType(env.specType(g.Result)), whole: true}}, nil
+				}
 				stt, ok := t.Underlying().(*types.Struct)
 				if !ok {
 					return nil, fmt.Errorf("%s is not a struct type", a.Args[0].Name)
